@@ -54,10 +54,14 @@ theorem spec_stops_are_star_cells : ∀ id ∈ Spec.Ncbi.ids,
 
 /-! ### Part 1: the 25 tables -/
 
-/-- the ids the library offers (found by probing `GetCodonTable(i)` for i = −1 … 255) are exactly NCBI's 25 codes -/
+/-- every one of NCBI's 25 codes is offered by the library (`Gen.codonTableIds`: the ids for which `GetCodonTable(i)`,
+i = 0 … 255, is not the empty table; the regenerated tables and the 64-codon rows exist for each).  An id the library
+offers BESIDE these (an alias such as 0 for the standard code, a newly added NCBI code) is outside the property, which
+speaks of "each of the 25 NCBI tables the library offers": such ids are reported by the correspondence check
+(class `table/extra-id-offered`) and do not break this theorem. -/
 theorem ids_complete :
-    Gen.codonTableIds = Spec.Ncbi.ids ∧ Gen.codonTables.map (·.1) = Spec.Ncbi.ids ∧
-      Gen.translate64.map (·.1) = Spec.Ncbi.ids ∧ Spec.Ncbi.ids.length = 25 := by
+    (∀ id ∈ Spec.Ncbi.ids, id ∈ Gen.codonTableIds ∧ (genTable? id).isSome = true ∧ (gen64? id).isSome = true) ∧
+      Spec.Ncbi.ids.length = 25 ∧ Spec.Ncbi.ids.Nodup := by
   decide +kernel
 
 /-- all 25 × 64 cells.  For every table id and every codon (paired with the residue the compiled
